@@ -263,6 +263,9 @@ PURE_EXTERNAL = {
     "collections.OrderedDict": lambda *a, **k: dict(*a, **k),
     "collections.Counter": lambda *a, **k: __import__("collections").Counter(*a, **k),
     "collections.deque": lambda *a, **k: __import__("collections").deque(*a, **k),
+    "urllib.parse.urlparse": lambda u, *a, **k: __import__("urllib.parse").parse.urlparse(str(u), *a, **k),
+    "urllib.parse.urlsplit": lambda u, *a, **k: __import__("urllib.parse").parse.urlsplit(str(u), *a, **k),
+    "glob.has_magic": lambda s_: __import__("glob").has_magic(str(s_)), "glob.escape": lambda s_: __import__("glob").escape(str(s_)),
     "contextlib.suppress": lambda *excs: Obj("suppress", kinds=[getattr(e, "name", str(e)).rsplit(".", 1)[-1] for e in excs]),
 }
 def _accept_pathlike(fn):
@@ -410,6 +413,66 @@ class _LazyGen:
             self.done = True
             raise StopIteration
         return self.value
+
+
+class ModelFuture:
+    """concurrent.futures.Future of the modelled executor."""
+
+    def __init__(self, thunk, executor=None):
+        self._thunk, self._done, self._value, self._exc, self._executor = thunk, False, None, None, executor
+
+    def _run(self):
+        if not self._done:
+            self._done = True
+            try:
+                self._value = self._thunk()
+            except Raised as exc:
+                self._exc = exc
+
+    def result(self, timeout=None):
+        if self._executor is not None:
+            self._executor.shutdown()     # while the caller blocks here the workers get through everything that was queued
+        self._run()
+        if self._exc is not None:
+            raise self._exc
+        return self._value
+
+    def exception(self, timeout=None):
+        if self._executor is not None:
+            self._executor.shutdown()
+        self._run()
+        return self._exc
+
+    def done(self):
+        return self._done
+
+    def cancel(self):
+        if self._done:
+            return False
+        self._done, self._exc = True, Raised("CancelledError", "")
+        return True
+
+
+class ModelExecutor:
+    """concurrent.futures.ThreadPoolExecutor / ProcessPoolExecutor.  A submitted call runs in another thread at some later moment; the model runs it at the latest legal
+    moment - all queued calls, in order, when the first result is asked for or the executor shuts down - which is the schedule on which a closure that reads a loop
+    variable late, or code that assumes the call has already happened, shows.  map() binds its arguments at once, as the library does."""
+
+    def __init__(self, interp, max_workers=None):
+        self.interp, self.max_workers, self.futures = interp, max_workers, []
+
+    def submit(self, fn, *args, **kwargs):
+        f = ModelFuture(lambda: self.interp.apply(fn, list(args), kwargs, 1), self)
+        self.futures.append(f)
+        return f
+
+    def map(self, fn, *iterables, timeout=None, chunksize=1):
+        futs = [self.submit(fn, *a) for a in zip(*iterables)]
+        return (f.result() for f in futs)
+
+    def shutdown(self, wait=True, cancel_futures=False):
+        for f in self.futures:
+            f._run()
 
 
 class PureInterp:
@@ -872,7 +935,9 @@ class PureInterp:
             raise pending
 
     def _exit_cm(self, v, depth):
-        if isinstance(v, Obj) and v._name == "file":
+        if isinstance(v, ModelExecutor):
+            v.shutdown()
+        elif isinstance(v, Obj) and v._name == "file":
             self.events.append(("close", getattr(v, "path", None)))
         elif isinstance(v, Obj) and v._name == "exitstack":
             self._unwind_exitstack(v, depth)
@@ -1397,6 +1462,9 @@ class PureInterp:
 
     def apply(self, f, args, kwargs, depth, node=None):
         if isinstance(f, FuncInfo):
+            hk = f"{f.module.name}.{f.qual}"
+            if hk in self.hooks and f.cls is None:      # a hooked function handed around as a value (executor.submit(call, ...), map(call, ...))
+                return self._hook(self.hooks[hk], args, kwargs)
             return self.call(f, args, kwargs, depth=depth + 1)
         if isinstance(f, tuple) and f and f[0] == "bound":
             return self.call(f[1], args, kwargs, self_obj=f[2], depth=depth + 1)
@@ -1443,6 +1511,8 @@ class PureInterp:
                     except (IndexError, ValueError, TypeError) as exc:
                         raise Raised(type(exc).__name__, str(exc))
                     return res      # dict views stay views: they compare like sets and follow later changes of the dictionary
+            if isinstance(recv, (ModelExecutor, ModelFuture)) and not name.startswith("_"):
+                return getattr(recv, name)(*args, **kwargs)
             if isinstance(recv, SymPath):
                 if name in SYMPATH_PURE:
                     try:
@@ -1459,6 +1529,16 @@ class PureInterp:
             name = f.name
             if name in self.hooks:
                 return self._hook(self.hooks[name], args, kwargs)
+            if name in ("concurrent.futures.ThreadPoolExecutor", "concurrent.futures.ProcessPoolExecutor", "concurrent.futures.thread.ThreadPoolExecutor",
+                        "concurrent.futures.process.ProcessPoolExecutor"):
+                return ModelExecutor(self, kwargs.get("max_workers", args[0] if args else None))
+            if name == "concurrent.futures.as_completed" and args:
+                return iter(list(args[0]))
+            if name == "concurrent.futures.wait" and args:
+                fs_ = list(args[0])
+                for f_ in fs_:
+                    f_._run()
+                return (set(fs_), set())
             obj = self.index.lookup(name)
             if isinstance(obj, FuncInfo):
                 return self.call(obj, args, kwargs, depth=depth + 1)
